@@ -4,6 +4,7 @@ import (
 	"bytes"
 	"encoding/json"
 	"fmt"
+	"runtime"
 	"strings"
 	"testing"
 
@@ -50,6 +51,52 @@ type tgtTag struct {
 	Name  string
 	Alpha int `bcl:"a_b"`
 	Ab    int
+}
+
+// Two distinct struct types with one and the same name (function-local types), with the bcl
+// tag on different field positions: anything the library remembers per type *name* rather
+// than per type leaks from one into the other.
+func localCfgA() any {
+	type cfg struct {
+		Name    string
+		Primary string `bcl:"addr"`
+		Backup  string
+		Port    int
+	}
+	return &cfg{}
+}
+func localCfgB() any {
+	type cfg struct {
+		Name    string
+		Backup  string
+		Port    int    `bcl:"listen"`
+		Primary string `bcl:"addr"`
+	}
+	return &cfg{}
+}
+
+var localCfgSrcA = []byte("def cfg \"a\" { addr = \"10.0.0.1\"; backup = \"b\"; port = 80 }\nbind cfg -> struct\n")
+var localCfgSrcB = []byte("def cfg \"b\" { addr = \"10.0.0.2\"; backup = \"c\"; listen = 81 }\nbind cfg -> struct\n")
+
+// historyDigest binds both same-named types, in an order that depends on the worker
+// process (its GOMAXPROCS setting): the parent compares the digests of the three passes, so
+// a result that depends on which type the process saw first shows as a cross-process difference.
+func historyDigest() string {
+	bindOne := func(src []byte, tg any) string {
+		var out, log bytes.Buffer
+		err := bcl.Unmarshal(src, tg, bcl.OptOutput(&out), bcl.OptLogger(&log))
+		return fmt.Sprintf("%+v|%s", tg, errText(err))
+	}
+	var a, b string
+	switch runtime.GOMAXPROCS(0) {
+	case 4:
+		b = bindOne(localCfgSrcB, localCfgB())
+		a = bindOne(localCfgSrcA, localCfgA())
+	default:
+		a = bindOne(localCfgSrcA, localCfgA())
+		b = bindOne(localCfgSrcB, localCfgB())
+	}
+	return digest(a, b)
 }
 
 func newTarget(kind string) any {
@@ -326,6 +373,7 @@ func (c16) Run(t *testing.T, sc *Scenario) *Outcome {
 	if first != nil {
 		o.Digest = digest(o.Digest, first.ErrText, first.Log, string(firstDump))
 	}
+	o.Digest = digest(o.Digest, historyDigest())
 	o.Nontrivial = o.Evals >= 2
 	return o
 }
